@@ -19,6 +19,8 @@ func dispatchTables(c *Ctx) (first, resume []hdrDispatch) {
 	if fd == nil {
 		return
 	}
+	hN := fd.Type.Params.List[2].Names[0].Name
+	hbN := fd.Type.Params.List[3].Names[0].Name
 	extract := func(body []ast.Stmt, d *hdrDispatch) {
 		for _, s := range body {
 			ast.Inspect(s, func(n ast.Node) bool {
@@ -26,14 +28,14 @@ func dispatchTables(c *Ctx) (first, resume []hdrDispatch) {
 				case *ast.AssignStmt:
 					if len(x.Lhs) == 1 && len(x.Rhs) == 1 {
 						l := c.src(x.Lhs[0])
-						if l == "h.state" && d.state == "" {
+						if l == hN+".state" && d.state == "" {
 							d.state = c.src(x.Rhs[0])
 						}
-						if l == "h.Val" {
+						if l == hN+".Val" {
 							d.valSrc = c.src(x.Rhs[0])
 						}
-						if call, ok := x.Rhs[0].(*ast.CallExpr); ok && strings.HasPrefix(c.src(call.Fun), "hb.Get") {
-							d.getter = strings.TrimPrefix(c.src(call.Fun), "hb.") + "->" + l
+						if call, ok := x.Rhs[0].(*ast.CallExpr); ok && strings.HasPrefix(c.src(call.Fun), hbN+".Get") {
+							d.getter = strings.TrimPrefix(c.src(call.Fun), hbN+".") + "->" + l
 						}
 					}
 					if len(x.Lhs) == 2 && len(x.Rhs) == 1 {
@@ -58,12 +60,12 @@ func dispatchTables(c *Ctx) (first, resume []hdrDispatch) {
 				continue
 			}
 			name := c.constName(cl.List[0])
-			if tag == "h.Type" && strings.HasPrefix(name, "Hdr") {
+			if tag == hN+".Type" && strings.HasPrefix(name, "Hdr") {
 				d := hdrDispatch{hdrType: name, pos: cl.Pos()}
 				extract(cl.Body, &d)
 				first = append(first, d)
 			}
-			if tag == "h.state" && strings.HasPrefix(name, "h") && len(name) > 1 && name[1] >= 'A' && name[1] <= 'Z' {
+			if tag == hN+".state" && strings.HasPrefix(name, "h") && len(name) > 1 && name[1] >= 'A' && name[1] <= 'Z' {
 				d := hdrDispatch{state: name, pos: cl.Pos()}
 				saved := d.state
 				extract(cl.Body, &d)
@@ -147,7 +149,7 @@ func ruleV3(c *Ctx) {
 	c.check(n >= 15, "V3", "exits", token.NoPos, fmt.Sprintf("%d extent pairs on completing exits checked (frozen minimum 15)", n))
 	// the tag lies inside the parameters: Tag.Set only in setFromParamVal with (vstart, vend)
 	if fd := c.Decls["setFromParamVal"]; fd != nil {
-		c.check(strings.Contains(c.src(fd.Body), "pf.Tag.Set(pf.vstart, pf.vend)"), "V3", "tag-span", fd.Pos(), "the tag is the parameter value span (vstart, vend)")
+		c.check(patIn(c.src(fd.Body), "@p.Tag.Set(@p.vstart, @p.vend)"), "V3", "tag-span", fd.Pos(), "the tag is the parameter value span (vstart, vend)")
 	}
 	// CSeq: number and method inside V
 	rc := fsmOf(c, "ParseCSeqVal")
